@@ -323,6 +323,22 @@ def judge(c, part):
         else:
             if len(set(mu)) > 1:
                 part.nt(("mixed", tuple(mu)))
+    # the same with rows (1-d arrays) as list elements, row length different from the list length
+    rows = [unyt_array([v, v + 1.0, v - 2.0], uu) for v, uu in zip(mv, mu)]
+    part.ev()
+    try:
+        r = unyt_array(rows)
+        s0, _, o0 = R.atom(mu[0])
+        s0, o0 = float(Unit(mu[0]).base_value), float(o0)
+        want = [[float(Unit(uu).base_value) * (w_ - float(R.atom(uu)[2])) / s0 + o0 for w_ in (v, v + 1.0, v - 2.0)] for v, uu in zip(mv, mu)]
+        if np.shape(r) != (len(mu), 3) or r.units != Unit(mu[0]):
+            bad("mixed-list-of-rows:shape-or-unit", got_shape=np.shape(r), got_unit=r.units, want_unit=mu[0])
+        elif not np.allclose(np.asarray(r, dtype=float), want, rtol=1e-12, atol=1e-10 if (o0 or any(float(R.atom(uu)[2]) for uu in mu)) else 0):
+            bad("mixed-list-of-rows:values", got=r, want=want, units=mu)
+        elif len(set(mu)) > 1:
+            part.nt(("mixed-rows", tuple(mu)))
+    except Exception as e:
+        bad("mixed-list-of-rows:raises", error=e, units=mu)
     if len(part.samples) < 2:
         part.sample({"shape": list(shape), "unit": u, "index form": f, "class": type(a).__name__, "mixed list": [f"{v} {uu}" for v, uu in zip(mv, mu)]})
     return out
